@@ -243,6 +243,15 @@ prop('C19', src='props/c19_signedness.cpp',
      technique='property-based differential testing (rapidcheck): identical generated scripts run against -fsigned-char and -funsigned-char builds linked into one process (objcopy symbol renaming), transcripts compared',
      level_text='Every generated script is executed against both builds and all observable results are compared; inputs concentrate on non-ASCII phrases and passwords in composed, decomposed, abbreviated and unaccented forms. Exploration.')
 
+prop('C20', src='props/c20_threads.cpp', engine='rapidcheck + ThreadSanitizer', report_unreproduced=True,
+     plan={'quick': [{'variant': 'tsan', 'workers': 12, 'cap_to_cores': True}], 'thorough': [{'variant': 'tsan', 'workers': 16, 'timeout': 14400}]},
+     rule='rapidcheck thread scripts on a ThreadSanitizer build (clang -fsanitize=thread, halt_on_error): N in {2,4,8,16} threads start together and each runs its own generated operation sequence (create, load, decode, decode_explicit, crypt, encode, store, keygen, queries, free, allocation-failure arming; 10-50 operations) on its own seed objects; dependencies are injected and features enabled once before the threads start; the lock-free thread_local stubs yield (sched_yield or a short spin, per case) at every dependency call. '
+          'Oracle: no ThreadSanitizer report; every thread\'s transcript (status counters, store image of each of its seeds after every step, last KDF arguments) equals the transcript of the same script executed alone afterwards. Non-trivial = at least two threads were in flight at the same time (relaxed atomic counter); distinct = fingerprint of the scripts.',
+     required_classes={'any': ['overlapping(>=2 threads in flight)', 'threads:2', 'threads:8', 'threads:16']},
+     assumptions=['ThreadSanitizer happens-before analysis over sampled schedules: no liveness guarantee, and a race needing an access pair the scripts never produce is missed', 'a TSan report is reported even if a replay of the same scripts does not reproduce it (schedules cannot be pinned)'],
+     technique='property-based testing of concurrent schedules (rapidcheck-generated per-thread operation scripts, yielding stubs) under ThreadSanitizer, with serial-transcript equality',
+     level_text='Schedules are sampled, not enumerated: ThreadSanitizer flags any pair of conflicting unsynchronised accesses that the scripts execute, and per-thread transcripts are compared with a serial run. Exploration.')
+
 NOT_APPLICABLE = {}
 MANIFEST_NOTES = 'All checks: ./check run <ID> --tier quick|thorough; VERIF_SEED selects the generator seed; evidence in /verif/evidence/<ID>.json; replay files under /verif/replays/<ID>/; committed regression cases under /verif/regress/<ID>/. See DESIGN.md.'
 for _p in ['C%02d' % i for i in range(1, 21)]:
